@@ -941,7 +941,7 @@ class CircuitTemplate(AbstractBaseTemplate):
 
         # process PopulationTemplate instances and their Connectivity objects
         if self.populations or self.connections:
-            pop_nodes, pop_edges = self._apply_populations_and_connections()
+            pop_nodes, pop_edges = self._apply_populations_and_connections(values=values)
             nodes.update(pop_nodes)
             edges.extend(pop_edges)
 
@@ -1296,7 +1296,7 @@ class CircuitTemplate(AbstractBaseTemplate):
         except KeyError:
             return idx
 
-    def _apply_populations_and_connections(self) -> tuple:
+    def _apply_populations_and_connections(self, values: dict = None) -> tuple:
         """Translate ``PopulationTemplate`` and ``Connectivity`` objects into IR nodes and edges.
 
         For each population a single ``VectorizedNodeIR`` of length *n* is created directly,
@@ -1315,7 +1315,8 @@ class CircuitTemplate(AbstractBaseTemplate):
         edges = []
 
         for pop_name, pop in self.populations.items():
-            vec_node, label_map, var_ranges = pop.apply(label=pop_name)
+            # values passed for this translation (`node_values`) take precedence over the population parameters
+            vec_node, label_map, var_ranges = pop.apply(label=pop_name, values=(values or {}).get(pop_name))
             nodes[vec_node.label] = vec_node
 
             # register indices so existing-edge machinery can still find these vars
